@@ -5,7 +5,7 @@ from common import hx
 from hexlib import HexaryTrie, keccak, Boom, WriteFailed, FailingDict
 
 ID = "C04"
-LEAN_IMPORTS = ["PyTrie.Props.C04", "PyTrie.Props.RawLevel"]
+LEAN_IMPORTS = ["PyTrie.Props.C04", "PyTrie.Props.RawLevel", "PyTrie.Props.NonVacuity"]
 THEOREMS = [
     "PyTrie.Props.C04.set_writes_addressed",
     "PyTrie.Props.C04.delete_writes_addressed",
@@ -19,6 +19,9 @@ THEOREMS = [
     "PyTrie.Props.Raw.set_refines",
     "PyTrie.Props.Raw.delete_refines",
     "PyTrie.Props.Raw.keccak_is_std",
+    "PyTrie.Props.NonVacuity.c04_complete",
+    "PyTrie.Props.NonVacuity.c04_next_ok",
+    "PyTrie.Props.NonVacuity.c04_op_keeps_complete",
 ]
 RULE = ("interleaved histories of several non-pruning tries over ONE shared database: set/delete on any trie, fresh tries "
         "opened at earlier roots, at_root snapshot reads, squash_changes blocks (normal exit, exception after n operations, n-th "
